@@ -229,7 +229,12 @@ pub fn gen_handshake(r: &mut Rng) -> Handshake {
                 0 => *r.pick(&[0u32, 1, 255, 4096, 65_535, 65_536, 0xFF_FFFE, 0xFF_FFFF, 1 << 24, u32::MAX]),
                 _ => r.next() as u32,
             },
-            collation: r.next() as u8,
+            // the client's character set: the usual utf8 ones, the latin1 family, anything
+            collation: match r.below(4) {
+                0 => *r.pick(&[33u8, 45, 46, 224, 255, 83]),
+                1 => *r.pick(&[8u8, 5, 15, 31, 47, 48, 49, 94, 1, 63]),
+                _ => r.next() as u8,
+            },
             user,
             tail,
         },
@@ -701,6 +706,11 @@ pub fn gen_errkind(r: &mut Rng) -> u16 {
 }
 
 pub fn gen_errmsg(r: &mut Rng) -> Blob {
+    if r.chance(1, 6) {
+        // valid UTF-8 with characters beyond ASCII (2-, 3- and 4-byte sequences)
+        let n = 1 + r.usize_below(30);
+        return blob_utf8(r, n);
+    }
     match r.weighted(&[25, 40, 15, 15, 5]) {
         0 => Blob::lit(b""),
         1 => {
